@@ -46,6 +46,7 @@ def decoder_key_table(facts, dec_ty, key_enum, sec):
     hfn = facts.hir.get(path)
     if hfn is None:
         return None, path
+    hfn = H.inlined_fn(facts, hfn, depth=2)      # arms may delegate to private methods of the state
     table = {}
 
     def visit(e, anc):
@@ -781,6 +782,7 @@ def decoder_event_table(facts):
     hfn = facts.hir.get(path)
     if hfn is None:
         return None, path
+    hfn = H.inlined_fn(facts, hfn, depth=2)
     table = {}
 
     def visit(e, anc):
@@ -1003,6 +1005,9 @@ def check_sample_banks(facts, out):
     out.anchor('KT', 'convert_sound_type / get_sample_bank', dec is not None and enc is not None)
     if dec is None or enc is None:
         return
+    # helper methods / tables the two functions delegate to are looked at in place
+    dec = H.inlined_fn(facts, dec, depth=2, keep=('HitSampleInfo::new',))
+    enc = H.inlined_fn(facts, enc, depth=2)
     add_names, normal_names = set(), set()
     dinits = H.binding_inits(dec)
 
@@ -1016,6 +1021,10 @@ def check_sample_banks(facts, out):
                 res.add(n['name'])
             if n.get('k') == 'path' and n.get('name') == 'File':
                 res.add('File')
+            if n.get('k') == 'path' and n.get('dk', '').startswith('Const') and dict.__contains__(facts.hir, n.get('def')) \
+                    and n['def'] not in seen and depth < 4:
+                seen.add(n['def'])          # a local `const TABLE: [(flag, name); N]`
+                res.update(names_of(facts.hir[n['def']]['body'], depth + 1, seen))
             if n.get('k') == 'local' and n['name'] not in seen and depth < 4:
                 seen.add(n['name'])
                 for init in dinits.get(n['name'], []):
@@ -1029,51 +1038,53 @@ def check_sample_banks(facts, out):
             bank = H.peel(n['args'][1])
             names = names_of(n['args'][0])
             fc = H.field_chain(bank)
-            if fc and fc[1] == ['bank_for_addition']:
+            which = fc[1][-1] if fc and fc[1] else (bank.get('name') if bank.get('k') == 'local' else None)
+            if which == 'bank_for_addition':
                 add_names.update(names)
-            elif fc and fc[1] == ['bank_for_normal']:
+            elif which == 'bank_for_normal':
                 normal_names.update(names)
     H.walk(dec['body'], visit)
     out.anchor('KT', 'decoder addition-bank sample names', len(add_names) >= 3, str(sorted(add_names)))
     inits = H.binding_inits(enc)
 
-    def filter_excludes(var):
-        """names excluded by `.find(|s| !matches!(s.name, A | B))` in the init of var; (negated, names)"""
-        for init in inits.get(var, []):
-            res = []
+    def all_filters():
+        """(negated, names) of every `.find(|s| [!]matches!(s.name, A | B))` / `s.name ==/!= A` filter in the encoder fn"""
+        res = []
 
-            def v(n, anc):
-                if n.get('k') == 'mcall' and n.get('name') == 'find' and n['args']:
-                    cl = H.peel(n['args'][0])
-                    if cl.get('k') == 'closure':
-                        body = H.peel(cl['body'])
-                        neg = False
-                        if body.get('k') == 'unary' and body.get('op') == 'Not':
-                            neg = True
-                            body = H.peel(body['e'])
-                        names = []
-                        if body.get('k') == 'match':
-                            _pat_paths(body['arms'][0]['pat'], names)
-                        elif body.get('k') == 'binary' and body.get('op') in ('Eq', 'Ne'):
-                            if body.get('op') == 'Ne':
-                                neg = not neg
-                            for side in (body['a'], body['b']):
-                                sp = H.peel(side)
-                                if sp.get('k') == 'path':
-                                    names.append(sp.get('name'))
+        def v(n, anc):
+            if n.get('k') == 'mcall' and n.get('name') == 'find' and n['args']:
+                cl = H.peel(n['args'][0])
+                if cl.get('k') == 'closure':
+                    body = H.peel(cl['body'])
+                    neg = False
+                    if body.get('k') == 'unary' and body.get('op') == 'Not':
+                        neg = True
+                        body = H.peel(body['e'])
+                    names = []
+                    if body.get('k') == 'match':
+                        _pat_paths(body['arms'][0]['pat'], names)
+                    elif body.get('k') == 'binary' and body.get('op') in ('Eq', 'Ne'):
+                        if body.get('op') == 'Ne':
+                            neg = not neg
+                        for side in (body['a'], body['b']):
+                            sp = H.peel(side)
+                            if sp.get('k') == 'path':
+                                names.append(sp.get('name'))
+                    if names:
                         res.append((neg, set(names)))
-            H.walk(init, v)
-            if res:
-                return res[0]
-        return None
-    fa = filter_excludes('add_bank')
+        H.walk(enc['body'], v)
+        return res
+    filters = all_filters()
+    negs = [f for f in filters if f[0]]
+    poss = [f for f in filters if not f[0]]
+    fa = negs[0] if len(negs) == 1 else (negs[0] if negs and all(x == negs[0] for x in negs) else None)
+    fn = (False, {'HIT_NORMAL'}) if (False, {'HIT_NORMAL'}) in poss else (poss[0] if poss else None)
     expected_excl = (normal_names | {'File'}) if normal_names else {'HIT_NORMAL', 'File'}
     ok = bool(fa) and fa[0] is True and fa[1] == expected_excl and not (add_names & expected_excl)
     out.add('KT-K6', 'encode::get_sample_bank', 'addition-bank-source', 'src/encode.rs', ok,
             '' if ok else ('the addition bank is taken from the first sample that is %s %s; the decoder gives the '
                            'addition bank to %s only (a file sample always carries the normal bank)') % (
                 'not' if fa and fa[0] else '', sorted(fa[1]) if fa else '?', sorted(add_names)), ordinal=False)
-    fn = filter_excludes('normal_bank')
     okn = bool(fn) and fn[0] is False and fn[1] == {'HIT_NORMAL'}
     out.add('KT-K6', 'encode::get_sample_bank', 'normal-bank-source', 'src/encode.rs', okn,
             '' if okn else 'the normal bank is not taken from the HIT_NORMAL sample', ordinal=False)
